@@ -60,6 +60,12 @@ def run(ctx):
     for topo, spec, muts, bounds in sc['mut']:
         eng.mutation_schedules(topo, spec, muts, invariant='C07', bounds=bounds, timeout=150 if ctx.quick else 900)
     eng.stored_schedules('C07_')
+    # a worker leaves while its request is queued: the splitter publishes on the endpoint chosen before the CLOSE (stale `outputs`)
+    eng.reach(topos.with_exit(topos.balance2(maxseq=2), 'W2', 1, 'clean', prop=(), obey=()), 'SpecPrompt', 'X_NoStaleEndpoint',
+              timeout=600)
+    if not ctx.quick:
+        eng.reach(topos.with_exit(topos.balance3(maxseq=2), 'W3', 1, 'clean', prop=(), obey=()), 'SpecPrompt',
+                  'X_NoStaleEndpoint', timeout=1800)
     for topo, spec, num, depth in sc['conf']:
         eng.conformance(topo, spec, num, depth)
     eng.cover(topos.balance2(maxseq=0), 'SpecZL', max_paths=150 if ctx.quick else None)
